@@ -131,6 +131,16 @@ def run_c20(chk: Check) -> int:
         recs.append(rec_malformed(s))
     for s in ("", ".", "..", "1.", ".1", "1-", "1:2", "a.b", "1 .2", "1. 2", "12", "1-2:3", "*", "1*2", "255", "1..2", "1-.2", "-:.", "1.a", "a1.2"):
         recs.append(rec_malformed(s))
+    # well-formed codes with every digit-dot-digit adjacency broken by one inserted character (before the dot, after it, or both)
+    import re as _re
+    wf = ["1.2.3.4.5.6", "1-0:1.8.0", "1.8.0", "1.8", "0-0:96.1.0*255", "255.255.255.255.255.255", "1-2:3.4.5*6", "10.20.30.40.50.60", "1.8.0*2", "0:1.8"]
+    for w in wf:
+        for sep in (" ", "\t", "+", "-", "_", "x", ",", "\n", ":", "*"):
+            for side in ("before", "after", "both"):
+                rp = {"before": sep + ".", "after": "." + sep, "both": sep + "." + sep}[side]
+                recs.append(rec_malformed(w.replace(".", rp)))
+        recs.append(rec_malformed(w.replace(".", "")))
+        recs.append(rec_malformed(_re.sub(r"\d", "x", w)))
     # unique ids, canaries
     seen, uniq = set(), []
     for r in recs:
@@ -168,7 +178,7 @@ def run_c20(chk: Check) -> int:
                         "compared by TLC before the verdict", "malformed strings that do contain digit.digit are not bound by the statement"]
     return chk.finish(rule="spec->code: 4x3x7x3x3x3 value-group combinations (all 16 presence patterns, boundary values) rendered by TLC in both syntaxes; "
                            "code->spec: random groups in both syntaxes, round trip over all presence patterns x {0,1,255} and random, ==/hash/==str/"
-                           "C.D.E over all pairs of a pool, malformed strings <=6 over digits/separators/letters/space; every record judged by TLC; "
+                           "C.D.E over all pairs of a pool, malformed strings <=6 over digits/separators/letters/space and well-formed codes with every digit.digit adjacency broken by an inserted character; every record judged by TLC; "
                            "non-trivial = distinct record")
 
 
